@@ -8,7 +8,11 @@ package centrifuge
 // process inside one testing/synctest bubble; quiescence is detected with synctest.Wait (no sleeps,
 // no real-time timeouts):
 //
-//	prun quiet=<0|1> | <label> ...
+//	prun quiet=<0|1> [map=<0|1|2>] | <label> ...
+//
+// map=1 / map=2 combine EmitPresence with MapClientPresenceChannel / MapUserPresenceChannel on the
+// subscription (MemoryMapBroker + GetMapChannelOptions configured): the regular presence entry is then
+// removed by Client.removeMapPresence instead of the else-branch of Client.unsubscribe.
 //
 // Labels: S (start / advance the client-side subscribe attempt), Sf (the OnSubscribe handler answers
 // with an error), Sl (the history read after the presence add fails), U (Client.Unsubscribe),
@@ -301,6 +305,12 @@ func vc06Scenario(line string) (res string) {
 	if len(parts) != 2 || !strings.HasPrefix(strings.TrimSpace(parts[0]), "prun") {
 		return "bad-op"
 	}
+	mapMode := "0"
+	for _, kv := range strings.Fields(parts[0]) {
+		if strings.HasPrefix(kv, "map=") {
+			mapMode = strings.TrimPrefix(kv, "map=")
+		}
+	}
 	labelPart, expPart, hasExp := strings.Cut(parts[1], ";")
 	labels := strings.Fields(labelPart)
 	var exp []string
@@ -317,14 +327,34 @@ func vc06Scenario(line string) (res string) {
 	}()
 	g := &vc06Gates{parked: map[string]chan struct{}{}}
 	w := &vc06World{g: g, actors: map[string]chan struct{}{}}
-	node, err := New(Config{
+	conf := Config{
 		LogLevel:                     LogLevelNone,
 		ClientPresenceUpdateInterval: 1000 * time.Hour,
-	})
+	}
+	if mapMode != "0" {
+		conf.Map = MapConfig{GetMapChannelOptions: func(string) MapChannelOptions {
+			return MapChannelOptions{Mode: MapModeEphemeral, KeyTTL: 60 * time.Second, MinPageSize: 1}
+		}}
+	}
+	node, err := New(conf)
 	if err != nil {
 		return "ERR new-node"
 	}
 	w.node = node
+	if mapMode != "0" {
+		mapBroker, err := NewMemoryMapBroker(node, MemoryMapBrokerConfig{})
+		if err != nil {
+			return "ERR map-broker"
+		}
+		node.SetMapBroker(mapBroker)
+	}
+	subOpts := SubscribeOptions{EmitPresence: true, EnablePositioning: true}
+	switch mapMode {
+	case "1":
+		subOpts.MapClientPresenceChannel = "clients:ch"
+	case "2":
+		subOpts.MapUserPresenceChannel = "users:ch"
+	}
 	mb, _ := NewMemoryBroker(node, MemoryBrokerConfig{})
 	node.SetBroker(&vc06Broker{MemoryBroker: mb, g: g})
 	mp, _ := NewMemoryPresenceManager(node, MemoryPresenceManagerConfig{})
@@ -343,7 +373,7 @@ func vc06Scenario(line string) (res string) {
 				cb(SubscribeReply{}, ErrorPermissionDenied)
 				return
 			}
-			cb(SubscribeReply{Options: SubscribeOptions{EmitPresence: true, EnablePositioning: true}}, nil)
+			cb(SubscribeReply{Options: subOpts}, nil)
 		})
 		c.OnAlive(func() { g.gate("T@alive") })
 	})
